@@ -26,11 +26,11 @@ import (
 // ---------------------------------------------------------------------------------------------
 
 type zvCSRCase struct {
-	SANs      []zvSAN  `json:"sans"`        // the SubjectAltName entries, byte-exact, in order
-	NoSANExt  bool     `json:"no_san_ext"`  // the CSR carries no SAN extension at all
-	Key       int      `json:"key"`         // which of the pre-generated P-256 keys signs the CSR
-	Mutations []string `json:"mutations"`   // generator labels
-	Mode      int      `json:"authz_mode"`  // table mode (see zvAuthz)
+	SANs      []zvSAN  `json:"sans"`       // the SubjectAltName entries, byte-exact, in order
+	NoSANExt  bool     `json:"no_san_ext"` // the CSR carries no SAN extension at all
+	Key       int      `json:"key"`        // which of the pre-generated P-256 keys signs the CSR
+	Mutations []string `json:"mutations"`  // generator labels
+	Mode      int      `json:"authz_mode"` // table mode (see zvAuthz)
 	TabSeed   uint64   `json:"authz_seed"`
 }
 
@@ -546,7 +546,9 @@ func (e *zvEnv) signCase(c *zvCSRCase, caseName string) {
 	if !allowed {
 		reason := zvFirstReason(ref.Reasons)
 		key := "C12:sign:" + kind + "-identity:" + reason + "-accepted"
-		if !zvSemantic[reason] && !strings.HasPrefix(reason, "uri-count-") {
+		if strings.HasPrefix(reason, "uri-count-") {
+			key = "C12:sign:csr:" + reason + "-accepted"
+		} else if !zvSemantic[reason] {
 			key = "C12:sign:nonstrict-uri-accepted:" + reason // kind independent: a property of URI parsing
 		}
 		uri := issued.ServiceURI + issued.AgentURI + issued.KindURI + issued.ServerURI
